@@ -168,7 +168,7 @@ pub struct Searcher<'a> {
     dockerignore_filters: Vec<DockerignoreFilter>,
     visited_dirs: HashSet<PathBuf>,
     #[cfg(unix)]
-    visited_inodes: HashSet<u64>,
+    visited_inodes: HashSet<(u64, u64)>,
     lscolors: LsColors,
     dir_queue: Box<VecDeque<PathBuf>>,
     current_follow_symlinks: bool,
@@ -375,7 +375,7 @@ impl<'a> Searcher<'a> {
                     false => symlink_metadata(root_dir),
                 };
                 if let Ok(metadata) = metadata {
-                    self.visited_inodes.insert(metadata.ino());
+                    self.visited_inodes.insert((metadata.dev(), metadata.ino()));
                 }
             }
 
@@ -800,11 +800,15 @@ impl<'a> Searcher<'a> {
 
     #[cfg(unix)]
     fn ok_to_visit_dir(&mut self, entry: &DirEntry, file_type: FileType) -> bool {
-        let ino = entry.ino();
-        if self.visited_inodes.contains(&ino) {
+        // inode numbers are unique only per device
+        let id = match entry.metadata() {
+            Ok(metadata) => (metadata.dev(), metadata.ino()),
+            Err(_) => (0, entry.ino()),
+        };
+        if self.visited_inodes.contains(&id) {
             return false;
         } else {
-            self.visited_inodes.insert(ino);
+            self.visited_inodes.insert(id);
         }
 
         match self.current_follow_symlinks {
